@@ -6,6 +6,7 @@ use octo_squirrel::protocol::address::Address;
 use octo_squirrel::protocol::socks::SocksVersion;
 use octo_squirrel::protocol::socks5;
 use octo_squirrel::protocol::socks5::Socks5CommandStatus;
+use octo_squirrel::protocol::socks5::Socks5CommandType;
 use octo_squirrel::protocol::socks5::message::Socks5CommandResponse;
 use tokio::io::AsyncReadExt;
 use tokio::io::AsyncWriteExt;
@@ -46,6 +47,10 @@ pub async fn get_request_addr(stream: &mut TcpStream) -> anyhow::Result<Address>
                 let local_addr = stream.local_addr()?;
                 let response = Socks5CommandResponse::new(Socks5CommandStatus::Success, local_addr.into());
                 let handshake = socks5::handshake::server::no_auth(stream, response).await?;
+                if handshake.command_type != Socks5CommandType::Connect {
+                    // BIND and UDP ASSOCIATE are not provided over this connection: no tunnel for them
+                    bail!("unsupported socks5 command: {:?}", handshake.command_type);
+                }
                 check_address(handshake.dst_addr)
             }
             Proxy::Unknown => bail!("unknown type of handshake"),
